@@ -215,7 +215,91 @@ fn key_pairs(run: &Run) {
     run.require_label("ordered-key-pairs-judged", 50000);
 }
 
+/// "with all composition helpers off" - also when they were ON a moment ago: a context composes a word with every
+/// helper on (old vowel-sign order, old reph, automatic vowel / chandrabindu, traditional joining), the word is ended in
+/// one of five ways, update-engine (idle) switches every helper off, and then each assigned key must emit exactly its
+/// assignment.  Whatever a helper kept for later (a waiting sign, a remembered last character) must not survive.
+fn helpers_switched_off(run: &Run) {
+    let lays: HashMap<Layout, HashMap<String, String>> = [Layout::Probhat, Layout::Synthetic].into_iter().map(|l| (l, load_layout_json(l))).collect();
+    // words as ASCII key text (both layouts share Probhat's main block): consonant + left-standing sign, lone sign,
+    // hasanta, chandrabindu, two signs, zo-fola, reph position, digits
+    let words = ["ki", "i", "[", "k/", "k>", "k[a", "kZ", "rk", "k/i", "1", "k[/"];
+    let mut items: Vec<(Layout, usize, u8)> = vec![];
+    for l in [Layout::Probhat, Layout::Synthetic] {
+        for w in 0..words.len() {
+            for end in 0..5u8 {
+                items.push((l, w, end));
+            }
+        }
+    }
+    run.exhaustive(
+        "keys-after-update-engine-switched-every-helper-off",
+        &items,
+        |_| Sandbox::new(),
+        |&(layout, wi, end), st, sb| {
+            let mut on = Opts::parse("Dvckro");
+            on.layout = layout;
+            let mut off = Opts::parse("D");
+            off.layout = layout;
+            let lay = &lays[&layout];
+            let mut ctx = Ctx::new(on, sb).map_err(|p| Failure::new(panic_kind(&p), p.to_string(), json!({})))?;
+            for k in &keys().keys {
+                for m in [0u8, 2] {
+                    let Some(want) = layout_value(lay, k, m & 2 != 0, false) else { continue };
+                    let case = || json!({"helpers_switched_off": {"layout": format!("{layout:?}"), "word": words[wi], "ending": end, "code": k.code, "modifier": m}});
+                    let pf = |p: crate::driver::PanicInfo| Failure::new(panic_kind(&p), p.to_string(), case());
+                    ctx.finish().map_err(pf)?;
+                    ctx.update(on, sb).map_err(pf)?;
+                    let shown = ctx.type_text(words[wi]).map_err(pf)?.map(|r| r.choices() > 0).unwrap_or(false);
+                    match end {
+                        0 => ctx.finish().map_err(pf)?,
+                        1 => {
+                            // commit only when something is shown (the caller's contract); else a finish request
+                            if shown {
+                                ctx.commit(0).map_err(pf)?;
+                            } else {
+                                ctx.finish().map_err(pf)?;
+                            }
+                        }
+                        2 => {
+                            ctx.backspace(true).map_err(pf)?;
+                        }
+                        3 => {
+                            // plain backspaces until one returns an empty suggestion (that ends the word)
+                            for _ in 0..12 {
+                                if ctx.backspace(false).map_err(pf)?.is_empty() {
+                                    break;
+                                }
+                            }
+                        }
+                        _ => {
+                            ctx.backspace(false).map_err(pf)?;
+                            ctx.finish().map_err(pf)?;
+                        }
+                    }
+                    // each of the five endings ends the word (C06), so the caller is entitled to call update-engine now;
+                    // the session flag is deliberately not consulted - a front-end that just erased the word does not ask
+                    ctx.update(off, sb).map_err(pf)?;
+                    let r = ctx.key(k.code, m, 0).map_err(pf)?;
+                    st.evals(1);
+                    if r.text != want {
+                        return Err(Failure::new(
+                            "wrong-text-after-helpers-were-switched-off",
+                            format!("{layout:?}: word {:?} composed with every helper on, ended (way {end}), update-engine to all helpers off, then key {} modifier {m}: pre-edit {:?}, the layout file says {want:?}", words[wi], k.name, r.text),
+                            case(),
+                        ));
+                    }
+                }
+            }
+            st.label("helpers-switched-off-by-update-engine");
+            st.nontrivial(hash_of(&(layout, wi, end)), || json!({"layout": format!("{layout:?}"), "word": words[wi], "ending": end}));
+            Ok(())
+        },
+    );
+}
+
 pub fn run(run: &Run) {
+    helpers_switched_off(run);
     after_layout_switch(run);
     same_key_across_update(run);
     key_pairs(run);
@@ -320,6 +404,50 @@ fn after_layout_switch(run: &Run) {
 }
 
 pub fn replay(_run: &Run, case: &Value) -> Result<(), Failure> {
+    if let Some(h) = case.get("helpers_switched_off") {
+        let layout = if h["layout"].as_str() == Some("Synthetic") { Layout::Synthetic } else { Layout::Probhat };
+        let (word, end) = (h["word"].as_str().unwrap_or_default(), h["ending"].as_u64().unwrap_or(0));
+        let (code, m) = (h["code"].as_u64().unwrap_or(0) as u16, h["modifier"].as_u64().unwrap_or(0) as u8);
+        let mut on = Opts::parse("Dvckro");
+        on.layout = layout;
+        let mut off = Opts::parse("D");
+        off.layout = layout;
+        let sb = Sandbox::new();
+        let pf = |p: crate::driver::PanicInfo| Failure::new(panic_kind(&p), p.to_string(), case.clone());
+        let mut ctx = Ctx::new(on, &sb).map_err(pf)?;
+        let shown = ctx.type_text(word).map_err(pf)?.map(|r| r.choices() > 0).unwrap_or(false);
+        match end {
+            0 => ctx.finish().map_err(pf)?,
+            1 => {
+                if shown {
+                    ctx.commit(0).map_err(pf)?;
+                } else {
+                    ctx.finish().map_err(pf)?;
+                }
+            }
+            2 => {
+                ctx.backspace(true).map_err(pf)?;
+            }
+            3 => {
+                for _ in 0..12 {
+                    if ctx.backspace(false).map_err(pf)?.is_empty() {
+                        break;
+                    }
+                }
+            }
+            _ => {
+                ctx.backspace(false).map_err(pf)?;
+                ctx.finish().map_err(pf)?;
+            }
+        }
+        ctx.update(off, &sb).map_err(pf)?;
+        let r = ctx.key(code, m, 0).map_err(pf)?;
+        let want = keys().by_code(code).and_then(|k| layout_value(&load_layout_json(layout), k, m & 2 != 0, false)).unwrap_or_default();
+        if r.text != want {
+            return Err(Failure::new("wrong-text-after-helpers-were-switched-off", format!("got {:?}, the layout file says {want:?}", r.text), case.clone()));
+        }
+        return Ok(());
+    }
     if let Some(kp) = case.get("key_pair") {
         let by_name = |n: Option<&str>| match n {
             Some("Synthetic") => Layout::Synthetic,
